@@ -221,3 +221,106 @@ class Client(object):
     def send_app_data(self, data):
         (ck, civ), _ = self.ks.app_keys(self.transcript_at_server_finished)
         self.sock.sendall(RT.tls13_protect(ck, civ, (0).to_bytes(8, 'big'), 23, data, 0))
+
+
+# ---- the same, as a hostile server against the library's TLS 1.3 client -------------------------------------------
+
+def client_key_share(client_hello_record):
+    rec = client_hello_record
+    p = 5 + 4 + 2 + 32
+    p += 1 + rec[p]
+    p += 2 + int.from_bytes(rec[p:p + 2], 'big')
+    p += 1 + rec[p]
+    end = p + 2 + int.from_bytes(rec[p:p + 2], 'big')
+    p += 2
+    while p + 4 <= end:
+        et, el = int.from_bytes(rec[p:p + 2], 'big'), int.from_bytes(rec[p + 2:p + 4], 'big')
+        if et == 51:
+            q = p + 4 + 2
+            klen = int.from_bytes(rec[q + 2:q + 4], 'big')
+            pt = rec[q + 4:q + 4 + klen]
+            if klen != 65 or pt[0] != 4:
+                raise ValueError('unexpected client key share')
+            return (int.from_bytes(pt[1:33], 'big'), int.from_bytes(pt[33:65], 'big'))
+        p += 4 + el
+    raise ValueError('no key_share in the ClientHello')
+
+
+def replace_server_hello(server_hello_record, random32, new_point65):
+    rec = bytearray(server_hello_record)
+    rec[5 + 4 + 2:5 + 4 + 2 + 32] = random32
+    p = 5 + 4 + 2 + 32
+    p += 1 + rec[p]
+    p += 2 + 1
+    end = p + 2 + int.from_bytes(rec[p:p + 2], 'big')
+    p += 2
+    while p + 4 <= end:
+        et, el = int.from_bytes(rec[p:p + 2], 'big'), int.from_bytes(rec[p + 2:p + 4], 'big')
+        if et == 51:
+            rec[p + 8:p + 8 + 65] = new_point65
+            return bytes(rec)
+        p += 4 + el
+    raise ValueError('no key_share in the ServerHello')
+
+
+def server_certificate_verify_msg(priv, transcript, scheme=SCHEME_SM2SIG_SM3, k=0x7654321, garbage=None):
+    content = b'\x20' * 64 + b'TLS 1.3, server CertificateVerify' + b'\x00' + H(transcript)
+    if garbage is not None:
+        sig = garbage
+    else:
+        pub = R.pub(priv)
+        e = H(R.compute_z(pub, SM2_ID) + content)
+        r, s = R.sign_with_k(priv, e, k)
+        sig = R.sig_der(r, s)
+    return hs_msg(15, struct.pack('>H', scheme) + struct.pack('>H', len(sig)) + sig)
+
+
+class Server(object):
+    """Answers one library client: reads its ClientHello, sends a ServerHello derived from a captured real one."""
+
+    def __init__(self, sock, server_hello_record, eph_priv, random32):
+        self.sock = sock
+        self.d = eph_priv
+        self.sh_template = server_hello_record
+        self.random = random32
+        self.transcript = b''
+        self.sseq = 0
+        self.cseq = 0
+        self.log = []
+
+    def start(self):
+        ch = read_record(self.sock)
+        if ch is None or ch[0] != 22 or ch[5] != 1:
+            self.log.append('no ClientHello')
+            return False
+        self.transcript += ch[5:]
+        cpt = client_key_share(ch)
+        sh = replace_server_hello(self.sh_template, self.random, R.pt_uncompressed(R.pub(self.d)))
+        self.sock.sendall(sh)
+        self.transcript += sh[5:]
+        shared = R.mul(self.d, cpt)
+        self.ks = Schedule(R.i2b(shared[0]))
+        (self.ck, self.civ), (self.sk, self.siv) = self.ks.handshake_keys(self.transcript)
+        return True
+
+    def send_hs(self, msg):
+        rec = RT.tls13_protect(self.sk, self.siv, self.sseq.to_bytes(8, 'big'), 22, msg, 0)
+        self.sseq += 1
+        self.sock.sendall(rec)
+        self.transcript += msg
+
+    def finished_msg(self):
+        return hs_msg(20, self.ks.finished(self.ks.s_hs, self.transcript))
+
+    def read_client_finished(self):
+        """True when the client answered with a Finished that verifies (it completed on its side)."""
+        rec = read_record(self.sock, timeout=5.0)
+        while rec is not None and rec[0] == 20:
+            rec = read_record(self.sock, timeout=5.0)
+        if rec is None or rec[0] != 23:
+            return False
+        got = RT.tls13_unprotect(self.ck, self.civ, self.cseq.to_bytes(8, 'big'), rec)
+        self.cseq += 1
+        if got is None or got[0] != 22 or got[1][0] != 20:
+            return False
+        return got[1][4:] == self.ks.finished(self.ks.c_hs, self.transcript)
